@@ -19,7 +19,7 @@ CHECKS = ('c08',)
 def budget(tier):
     if tier == 'quick':
         return {'shards': 16, 'examples': 40, 'steps': 20, 'wall': 240}
-    return {'shards': 16, 'examples': 300, 'steps': 30, 'wall': 2400}
+    return {'shards': 16, 'examples': 3000, 'steps': 30, 'wall': 2400}
 
 
 def outcome_of(sim, case):
